@@ -10,8 +10,11 @@ cp /verif/known_findings.json "$out/"
 if [ -n "$(git -C /repo status --porcelain)" ]; then echo "REPO-NOT-CLEAN: commit or stash changes in /repo first"; rm -rf "$out"; exit 2; fi
 git -C /repo apply "$patch" || { echo "PATCH-DOES-NOT-APPLY"; rm -rf "$out"; exit 2; }
 trap 'git -C /repo checkout -- . ; rm -rf "$out"' EXIT
-cd /verif/sim && cargo build --release --offline -q -p fibsim 2>"$out/build.log" || { echo "BUILD-FAILED"; tail -20 "$out/build.log"; exit 2; }
-VERIF_DIR="$out" ./target/release/fibsim check "$prop" --"$tier" "$@" > "$out/run.log" 2>&1
+# SEED_TARGET_DIR: build into (and run from) another cargo target directory, so a check that is
+# running from sim/target at the same time never picks up the mutated binary
+tdir="${SEED_TARGET_DIR:-/verif/sim/target}"
+cd /verif/sim && CARGO_TARGET_DIR="$tdir" cargo build --release --offline -q -p fibsim 2>"$out/build.log" || { echo "BUILD-FAILED"; tail -20 "$out/build.log"; exit 2; }
+VERIF_DIR="$out" "$tdir/release/fibsim" check "$prop" --"$tier" "$@" > "$out/run.log" 2>&1
 code=$?
 grep -E "VIOLATION|KNOWN-FINDING|^  class=|done:" "$out/run.log" | cut -c1-400 | head -20
 echo "EXIT=$code"
